@@ -110,7 +110,7 @@ func (w Weibull) Quantile(p float64) float64 {
 	if p < 0 || p > 1 {
 		panic(badPercentile)
 	}
-	return w.Lambda * math.Pow(-math.Log(1-p), 1/w.K)
+	return w.Lambda * math.Pow(-math.Log1p(-p), 1/w.K)
 }
 
 // Rand returns a random sample drawn from the distribution.
